@@ -37,7 +37,7 @@ func init() {
 
 var c06Classes = []string{"hdrsize-oversized", "datasize-negative", "datasize-oversized", "rawsize-wrong", "rawsize-small", "rawsize-zero", "rawsize-huge", "zlib-corrupt", "encoding-lzma",
 	"encoding-none", "type-unknown", "feature-unsupported", "dense-no-ids", "dense-no-lat", "dense-no-lon", "string-oob-dense", "string-oob-way",
-	"string-oob-rel", "column-short", "way-lat-longer", "rel-types-short", "plain-nodes", "tagkey-oob-dense"}
+	"string-oob-rel", "column-short", "way-lat-longer", "way-lat-short", "rel-types-short", "rel-roles-short", "rel-type-unknown", "plain-nodes", "tagkey-oob-dense"}
 
 // c06Damaged serialises the file with frame pos damaged. ok=false when the class does not apply to that frame.
 func c06Damaged(pf *PFile, class string, pos int) ([]byte, bool) {
@@ -244,6 +244,50 @@ func c06Damaged(pf *PFile, class string, pos int) ([]byte, bool) {
 			if w.Refs == nil {
 				w.Refs = []int64{}
 			}
+			return true
+		}) {
+			return nil, false
+		}
+	case "way-lat-short":
+		// a latitude column shorter than the refs column: the missing coordinates would be invented zeros
+		if !blockDamage(func(b *PBlock) bool {
+			w := firstWay(b)
+			if w == nil || len(w.Refs) < 2 {
+				return false
+			}
+			n := len(w.Refs)
+			w.Lat = make([]int64, n-1)
+			w.Lon = make([]int64, n)
+			for i := range w.Lon {
+				w.Lon[i] = 7
+			}
+			for i := range w.Lat {
+				w.Lat[i] = 5
+			}
+			return true
+		}) {
+			return nil, false
+		}
+	case "rel-roles-short":
+		// fewer roles than members: the remaining members would be invented empty ones
+		if !blockDamage(func(b *PBlock) bool {
+			r := firstRel(b)
+			if r == nil || len(r.Roles) < 2 {
+				return false
+			}
+			r.Roles = r.Roles[:len(r.Roles)-1]
+			return true
+		}) {
+			return nil, false
+		}
+	case "rel-type-unknown":
+		if !blockDamage(func(b *PBlock) bool {
+			r := firstRel(b)
+			if r == nil || len(r.Types) == 0 {
+				return false
+			}
+			r.Types = append([]int64{}, r.Types...)
+			r.Types[len(r.Types)-1] = 3 // not NODE, WAY or RELATION
 			return true
 		}) {
 			return nil, false
